@@ -3,7 +3,7 @@
 # its own property's quick check and the cross-checks listed below; writes kills/<name>.txt.
 # /repo must be clean; each patch is applied, checked and reverted (trap-protected by seedrun.sh).
 VERIF="$(cd "$(dirname "$0")/.." && pwd)"; cd "$VERIF"; mkdir -p kills
-declare -A EXTRA=( [C03]="C05" [C12]="C21" [C08]="C02" [C33]="C21" [C17]="C02" [C13]="C10" [C01]="C02" [C21]="C12" [C02]="C01 C05" [C04]="C18 C02" [C05]="C06" [C06]="C07" [C07]="C06" [C16]="C17" [C19]="C20 C36 C14" [C20]="C19" [C32]="C05" [C10]="C11 C21" [C14]="C15" [C15]="C14" [C18]="C10" )
+declare -A EXTRA=( [C03]="C05" [C12]="C21" [C08]="C02" [C33]="C21" [C17]="C02" [C13]="C10" [C01]="C02" [C21]="C12" [C02]="C01 C05" [C04]="C18 C02" [C05]="C06" [C06]="C07" [C07]="C06" [C16]="C17" [C19]="C20 C36 C14" [C20]="C19" [C32]="C05" [C10]="C11 C21" [C14]="C15" [C15]="C14" [C18]="C10 C17" )
 for d in seeded/*/; do
   n=$(basename $d); id=${n%%-*}
   if [ $# -gt 0 ]; then m=0; for p in "$@"; do [[ $n == $p* ]] && m=1; done; [ $m = 1 ] || continue; fi
